@@ -44,10 +44,11 @@ def spec(tier, seed):
     rels = ["same day", "nextUpdate one day later", "nextUpdate one day earlier", "both in 2050 (GeneralizedTime form), one day apart"]
     for rel, what in enumerate(rels):
         for n_ku in (0, 1, 2):
-            if tier == "quick" and (rel, n_ku) not in ((0, 0), (0, 2), (1, 1), (2, 0), (3, 1)):
+            # (the 2050 relation needs > 15 min of symbolic execution: thorough tier only)
+            if tier == "quick" and (rel, n_ku) not in ((0, 0), (0, 2), (1, 1), (2, 0)):
                 continue
             qs.append(Query(name=f"c08_guards_{rel}_{n_ku}", body=f"    crl::guards({rel}, {n_ku});", unwind=40, family="crl_guards", stubs=S1,
-                            functions=CRL_FUNCS, timeout=1200,
+                            functions=CRL_FUNCS, timeout=1200 if rel != 3 else 3000,
                             shape=f"dates: {what}; hour, minute, second, nanosecond of both updates symbolic; issuer declares {n_ku} symbolic key usage(s)"))
     return {"queries": qs, "mir": run_mir, "exhaustive": False,
             "bounds": "CRL shapes: <= 2 revoked entries, every reason code and none, invalidity date present/absent, IDP none/no scope/user/CA with 1..2 "
